@@ -132,7 +132,7 @@ theorem inherited_errors_prefix (sy : Symbols) (fuel : Nat) (i bi : Iface) (b : 
 /-- non-vacuity: interleaved members over two levels -/
 example :
     let base : Iface := ⟨1, none, [.error 20, .func ⟨10, [], false, false⟩, .error 21]⟩
-    let leaf : Iface := ⟨2, some 1, [.const ⟨30, .u8, 0⟩, .error 22]⟩
+    let leaf : Iface := ⟨2, some 1, [.const { name := 30, ty := .u8, value := 0 }, .error 22]⟩
     let sy : Symbols := { ifaces := [(base, 0), (leaf, 0)] }
     (match numberIface sy 3 3 leaf errorCodeStart 0 with
      | .ok (mi, _, _) => mi.flatErrors
